@@ -124,7 +124,25 @@ class ByteInterval(Node):
     address = _IndexedAttribute[typing.Optional[int]]()(
         lambda self: self.section
     )
-    size = _IndexedAttribute[int]()(lambda self: self.section)
+    _indexed_size = _IndexedAttribute[int]()(lambda self: self.section)
+
+    @property
+    def size(self) -> int:
+        """The size of this interval in bytes.
+
+        Assigning a size smaller than the number of stored bytes truncates
+        :attr:`contents`, so that the stored bytes never exceed the size.
+        """
+
+        return self._indexed_size
+
+    @size.setter
+    def size(self, value: int) -> None:
+        self._indexed_size = value
+        # contents does not exist yet while the constructor runs
+        contents = getattr(self, "contents", None)
+        if contents is not None and len(contents) > value:
+            self.contents = contents[:value]
 
     def __init__(
         self,
